@@ -107,8 +107,12 @@ class StorageTools:
         path = os.path.join(storage, name)
         logger.debug("Writing %s" % path)
 
-        with open(path, 'w' if type(val) is str else 'wb') as attrFile:
+        tmpPath = path + ".tmp"
+        with open(tmpPath, 'w' if type(val) is str else 'wb') as attrFile:
             attrFile.write(val)
+            attrFile.flush()
+            os.fsync(attrFile.fileno())
+        os.replace(tmpPath, path)
 
     @staticmethod
     def readProfileData(profile_name, name, default=None):
